@@ -645,7 +645,7 @@ func c17DirectedMixes() []c17Mix {
 	P := defaultMaxPacketMsgPayloadSize
 	return []c17Mix{
 		{name: "mix:defaults:over-bufcap-then-empty", maxsz: P,
-			ds: []c17Desc{{id: 1, prio: 1, qcap: 16, rcap: defaultRecvMessageCapacity}, {id: 2, prio: 1, qcap: 16, rcap: defaultRecvMessageCapacity}},
+			ds:    []c17Desc{{id: 1, prio: 1, qcap: 16, rcap: defaultRecvMessageCapacity}, {id: 2, prio: 1, qcap: 16, rcap: defaultRecvMessageCapacity}},
 			sched: []c17MixMsg{{1, 5}, {2, 7}, {1, 3*B + 17}, {1, 0}, {2, 100}, {1, 11}, {2, 0}, {1, 2000}, {2, 10}}},
 		{name: "mix:defaults:bufcap-boundary-then-degenerate", maxsz: P,
 			ds: []c17Desc{{id: 0x20, prio: 5, qcap: 16, rcap: 4 * B}, {id: 0x30, prio: 1, qcap: 16, rcap: 4 * B}},
